@@ -1,7 +1,126 @@
 import Driver.Util
-/-! Line-protocol driver for C09 (not built yet). -/
+import GqlgenVerif.Model.Http
+open GqlgenVerif GqlgenVerif.Http GqlgenVerif.Gen.HttpStatus
+/-! Line protocol driver for C09.
+
+    c   <srv> <method> <up> <rct> <accept> <dec> <param> <doc> <opName> <vars> <exec>   → `<status> <ct> <body> <exec>`
+    chk <the same 11 tokens> <status> <ct> <body> <exec>                                 → `ok` | violated clauses
+    st  <codes>                                                                          → `<statusFor> <statusForGraphQLResponse>`
+    ct  <explicit> <accept>                                                              → `<determineCT> <Spec.negotiate>`
+    guard                                                                                → kinds GET.Do lets through
+-/
 namespace Driver.C09
-def step (_line : String) : String := "bad-op"
+
+def unslash (s : String) : String := s.replace "%" "/"
+
+def parseMethod : String → Option Method
+  | "GET" => some .get | "POST" => some .post | "HEAD" => some .head | "OPTIONS" => some .options
+  | "OTHER" => some .other | _ => none
+
+def parseRct : String → Option ReqCT
+  | "json" => some .json | "graphql" => some .graphql | "urlencoded" => some .urlencoded
+  | "multipart" => some .multipart | "other" => some .other | "invalid" => some .invalid | _ => none
+
+def parseKind : String → Option TKind
+  | "O" => some .options | "G" => some .get | "P" => some .post | "Q" => some .graphql
+  | "U" => some .urlenc | "M" => some .multipart | _ => none
+
+def optStr (s : String) : Option String := if s = "~" then none else some (unslash s)
+
+def parseTransport (s : String) : Option Transport :=
+  match s.splitOn "/" with
+  | [k, ct, o] => (parseKind k).map fun k => { kind := k, hdrs := { ct := optStr ct, others := o = "1" } }
+  | _ => none
+
+def parseSrv (s : String) : Option (List Transport) :=
+  if s = "-" then some [] else (s.splitOn ",").mapM parseTransport
+
+def parseAccept (s : String) : Option (List (Option String)) :=
+  if s = "~" then none else some ((s.splitOn ",").map fun p => if p = "!" then none else some (unslash p))
+
+def parseDec : String → Option (Option DecFail)
+  | "~" => some none
+  | "getQuery" => some (some .getQuery) | "getVars" => some (some .getVars) | "getExt" => some (some .getExt)
+  | "postJson" => some (some .postJson) | "gqlEscape" => some (some .gqlEscape)
+  | "ueJson" => some (some .ueJson) | "ueEscape" => some (some .ueEscape)
+  | "mpTooLarge" => some (some .mpTooLarge)
+  | s => if s.startsWith "mp" then some (some .mpForm) else none
+
+def parseOpKind : String → Option AstOp
+  | "q" => some .astQuery | "m" => some .astMutation | "s" => some .astSubscription | _ => none
+
+def parseOp (s : String) : Option Op :=
+  match s.splitOn "." with
+  | [k, n] => (parseOpKind k).map fun k => { kind := k, name := n }
+  | _ => none
+
+def parseDoc (s : String) : Option Doc :=
+  if s = "P" then some .parseErr
+  else if s = "I" then some .invalid
+  else if s = "V" then some (.ops [])
+  else if s.startsWith "V" then ((s.drop 1).toString.splitOn ":").mapM parseOp |>.map Doc.ops
+  else none
+
+def parseParam (s : String) : Option (Option String) :=
+  if s = "0" then none else if s = "nocode" then some none else some (some s)
+
+def parseReq (t : List String) : Option (List Transport × Req) :=
+  match t with
+  | [srv, m, up, rct, acc, dec, param, doc, opn, vars, ex] => do
+    let srv ← parseSrv srv
+    let m ← parseMethod m
+    let rct ← parseRct rct
+    let dec ← parseDec dec
+    let doc ← parseDoc doc
+    pure (srv, { method := m, upgrade := up = "1", rct := rct, accept := parseAccept acc, dec := dec,
+                 paramErr := parseParam param, doc := doc, opName := if opn = "~" then "" else opn,
+                 varsOk := vars = "1", execErr := ex = "err" })
+  | _ => none
+
+def showOp (o : Op) : String :=
+  (match o.kind with | .astQuery => "q" | .astMutation => "m" | .astSubscription => "s") ++ "." ++ o.name
+
+def showBody : Body → String
+  | .empty => "empty" | .errors => "errors" | .data => "data" | .bad => "bad"
+
+def showResp (o : Resp) : String :=
+  s!"{o.status} {o.ctype.getD "none"} {showBody o.body} {match o.executed with | some op => showOp op | none => "-"}"
+
+def parseBody : String → Body
+  | "empty" => .empty | "errors" => .errors | "data" => .data | _ => .bad
+
+def parseResp (t : List String) : Option Resp :=
+  match t with
+  | [st, ct, body, ex] => do
+    let st ← st.toNat?
+    let ex ← if ex = "-" then some none else (parseOp ex).map some
+    pure { status := st, ctype := if ct = "none" then none else some ct, body := parseBody body, executed := ex }
+  | _ => none
+
+def step (line : String) : String :=
+  match line.splitOn " " with
+  | "c" :: rest =>
+    match parseReq rest with
+    | some (srv, r) => showResp (serve srv r)
+    | none => "bad-op"
+  | "chk" :: rest =>
+    match parseReq (rest.take 11), parseResp (rest.drop 11) with
+    | some (srv, r), some o =>
+      match Spec.violations srv r o with
+      | [] => "ok"
+      | vs => "violates:" ++ ",".intercalate vs
+    | _, _ => "bad-op"
+  | ["st", codes] =>
+    let cs : List (Option String) :=
+      if codes = "-" then [] else (codes.splitOn ",").map fun c => if c = "~" then none else some c
+    s!"{statusFor (getErrorKind cs)} {statusForGraphQLResponse (getErrorKind cs)}"
+  | ["ct", e, acc] =>
+    s!"{determineCT (optStr e) (parseAccept acc)} {Spec.negotiate (optStr e) (parseAccept acc)}"
+  | ["guard"] =>
+    " ".intercalate (([AstOp.astQuery, .astMutation, .astSubscription].filter fun k => !getRefuses k).map
+      fun k => showOp { kind := k, name := "" })
+  | _ => "bad-op"
+
 end Driver.C09
 
 def main : IO Unit := do
